@@ -17,17 +17,28 @@ def gen_twin_program(ch: Choices) -> RawProgram:
     """
     L = [HEADER.format(ns="vp")]
     nleaf = 1 + ch.choice(2, "nleaf")
+    cap = (1 + ch.choice(2, "r1-cap")) if ch.coin(0.7, "r1-configured") else 0
+    # swarm: some programs put every leaf behind the limit (so that several twins queue up
+    # behind a holder at once), some none
+    p_leaf_limit = [0.0, 0.3, 1.0][ch.choice(3, "leaf-limit-mode")]
     for i in range(nleaf):
         opts = []
-        if ch.coin(0.3, "leaf-limit"):
+        if ch.coin(p_leaf_limit, "leaf-limit"):
             opts.append("limits=['r1']")
         if ch.coin(0.15, "leaf-process"):
             opts.append("executor='process'")
+        if ch.coin(0.2, "leaf-cse-only"):
+            # without the backend cache a twin re-triggered after its sibling finished can only
+            # be served by CSE
+            opts.append(["cache=False", "cache_scope='CSE'"][ch.choice(2, "leaf-cse-kind")])
         body = f"    hit('leaf{i}', x)\n"
         if ch.coin(0.2, "leaf-raises"):
             body += f"    raise ValueError('boom-leaf{i}')\n"
         L.append(f"@task({', '.join(opts)})\ndef leaf{i}(x):\n{body}    return mix('leaf{i}', x)\n\n")
     L.append("@task()\ndef delay(x):\n    return x\n\n")
+    # takes the whole resource: everything else that needs r1 queues up behind it
+    hog_lim = f"{{'r1': {cap}}}" if cap else "['r1']"
+    L.append(f"@task(limits={hog_lim})\ndef hog(x):\n    return x\n\n")
     wrappers = [("w_plain", ""), ("w_np", "prov=False"), ("w_none", "cache_scope='NONE'"),
                 ("w_cse", "cache=False"), ("w_lim", "limits=['r1']")]
     for name, opt in wrappers:
@@ -42,7 +53,9 @@ def gen_twin_program(ch: Choices) -> RawProgram:
 
     def item():
         i = ch.choice(nleaf, "which-leaf")
-        k = ch.choice(8, "item-kind")
+        k = ch.choice(9, "item-kind")
+        if k == 8:
+            return f"hog({ch.choice(3, 'hog-arg')})"
         if k <= 2:
             return f"leaf{i}({arg()})"
         if k == 3:
@@ -60,7 +73,7 @@ def gen_twin_program(ch: Choices) -> RawProgram:
     if any("raise" in x for x in L):
         expr = f"catch_all({expr})" if ch.coin(0.5, "wrap-catch-all") else expr
     L.append(f"@task()\ndef t0():\n    return {expr}\n")
-    limits = {"r1": 1 + ch.choice(2, "r1-cap")} if ch.coin(0.7, "r1-configured") else {}
+    limits = {"r1": cap} if cap else {}
     return RawProgram("".join(L), limits=limits)
 
 
@@ -73,7 +86,7 @@ class C06(EngineACheck):
         "signature); non-trivial = at least two jobs in flight at once"
     )
     EXPECTED_PROBES = ["collapsed_into_running_twin", "twin_served_by_backend_cse",
-                       "twin_waited_for_limits"]
+                       "twin_waited_for_limits", "two_twins_waited_for_limits"]
     QUICK_SECONDS = 35.0
 
     def gen_config(self, ch: Choices) -> GenConfig:
@@ -132,6 +145,8 @@ class C06(EngineACheck):
                     out.probe("twin_served_by_backend_cse")
                 if any(r.exec_count > 1 for r in rs_):
                     out.probe("twin_waited_for_limits")
+                if sum(1 for r in rs_ if r.exec_count > 1) >= 2:
+                    out.probe("two_twins_waited_for_limits")
             if n > 1:
                 waited = any(r.exec_count > 1 for r in opted_in)
                 out.violate(
